@@ -3,6 +3,7 @@ import DryocVerif.Proofs.Blake2bMain
 import DryocVerif.Proofs.Blake2bBackend
 import DryocVerif.Proofs.Argon2Code
 import DryocVerif.Proofs.GenSimdText
+import DryocVerif.Proofs.ContainerIndependence
 /-
 C18 — results do not depend on the backend.
 
@@ -22,7 +23,39 @@ therefore compares ONE buffering model at TWO compression functions; it is a con
 congruence argument.  That the `init / update / finalize / hash / longhash` TEXT of blake2b_simd.rs is the same as
 that of blake2b_soft.rs is a PREMISE of this reading; it is not proved in Lean and is checked only by the
 three-build transcript diff of the differential run (stable / nightly / nightly + `simd_backend` builds of the
-harness must produce identical transcripts).
+harness must produce identical transcripts) and by a text comparison done in Python on every run (last section).
+
+SCOPE OF C18 AS A WHOLE ("results independent of backend, build configuration, container") — which parts are
+carried by theorems of this file and which are DIFFERENTIAL-ONLY.
+Carried by theorems:
+  * BLAKE2b, SIMD vs software backend: the compression function (`simd_compress_eq`, all inputs) and, on top of the
+    ONE shared buffering model, everything built on it — generichash, `longhash`, Argon2 / `crypto_pwhash`, kdf,
+    kx session keys, the sealed-box nonce (`simd_*_eq`);
+  * containers: the operations in which the containers of the crate run DIFFERENT code — `resize`
+    (`locked_resize_eq_vec_resize`, `resize_container_independent`, `shrink_then_grow_zero_pads`), `clone`
+    (`clone_eq_vec_clone`), the fixed-length constructors (`tryFromSlice_strict_all_containers`) — and the one
+    stated exception, `Vec<u8>` / `&[u8]` / `[u8]` used as `ByteArray<N>` (`asArray_prefix_view`); section
+    "containers" below.  These are statements about the protected-memory model of C14 (`Model/Protected.lean`) and
+    the byte-list models of the constructors; what they say about a primitive's RESULT is only: the bytes handed to
+    the primitive are the same whatever container held them.
+NOT carried by any theorem — THREE-BUILD TRANSCRIPT DIFF ONLY (the stable, `nightly` and `nightly` + `simd_backend`
+builds of the harness must print identical transcripts on the differential corpus; nothing in Lean models the
+alternative code):
+  * SHA-512 with `sha2/asm` under `simd_backend`: reaches signatures (Ed25519), `crypto_hash`, HMAC-SHA-512-256
+    (`crypto_auth`) and the sign-key → X25519 conversion.  Lean has ONE SHA-512 model;
+  * Curve25519: the backend curve25519-dalek selects (serial / SIMD) for the X25519 DH of `crypto_kx` and of the
+    boxes, and for the Ed25519 group operations of signatures.  Lean has ONE field / group model;
+  * the `nightly` configuration WITHOUT `simd_backend` (the protected-memory types compiled in, software BLAKE2b):
+    there is no Lean counterpart of "the same crate built with another feature set";
+  * boxes and secret boxes (`DryocBox`, `DryocSecretBox`, the stream) with their fields in heap (`Vec<u8>`,
+    `HeapBytes`) or locked (`Locked<HeapBytes>`, `Locked<HeapByteArray<N>>`) containers: the box / secret-box models
+    take byte lists; that the heap / locked instantiations produce the same ciphertexts and tags is observed by the
+    transcript diff, the theorems of section "containers" cover only the container operations themselves.
+
+THE TWO `example`s at the end of the BLAKE2b part ("container independence", "backend and container independence
+together") are FUNCTION CONGRUENCE — `f x = f y` from `x = y`, for a model that takes byte lists: NO CONTENT.  They
+record that the models are functions of the contents and nothing else; they say nothing about the places where
+containers differ, which is what section "containers" is for.
 -/
 namespace DryocVerif.Properties.C18
 open DryocVerif
@@ -334,12 +367,11 @@ theorem simd_hashChunks_chunking (outLen : Nat) (key salt personal : Option Byte
       hashChunksC Model.Blake2bSimd.compress outLen key salt personal [cs.flatten] :=
   Proofs.Blake2b.hashChunksC_eq Model.Blake2bSimd.compress outLen key salt personal cs
 
-/-- (remark, not counted as a property theorem — it is `f x = f y` from `x = y`)
-**container independence** is definitional in the models: every Rust container
-(`Vec<u8>`, `[u8; N]`, `HeapBytes`, `HeapByteArray`, protected memory, …) is modelled by the
-byte list it derefs to, so a result depends on the containers only through their contents.
-Spelled out: for any two container types with their `as_slice` views, equal contents give
-equal results, whatever the backend. -/
+/-- (remark, NOT a property theorem: FUNCTION CONGRUENCE, `f x = f y` from `x = y` — no content.)
+Every Rust container (`Vec<u8>`, `[u8; N]`, `HeapBytes`, `HeapByteArray`, protected memory, …) enters the hash
+models as the byte list it derefs to, so a model's result depends on the containers only through their contents; that
+is a property of how the models are WRITTEN, not a theorem about the crate.  The places where containers run different
+code (`resize`, `clone`, the fixed-length constructors, `as_array`) are the subject of section "containers" below. -/
 example {α β : Type} (viewA : α → Bytes) (viewB : β → Bytes)
     (C : Compress) (outLen : Nat) (key salt personal : Option Bytes)
     (xs : List α) (ys : List β) (h : xs.map viewA = ys.map viewB) :
@@ -347,8 +379,9 @@ example {α β : Type} (viewA : α → Bytes) (viewB : β → Bytes)
       hashChunksC C outLen key salt personal (ys.map viewB) := by
   rw [h]
 
-/-- (remark, not counted as a property theorem) backend and container independence together: SIMD backend on containers of one kind =
-software backend on containers of another kind holding the same bytes -/
+/-- (remark, NOT a property theorem: function congruence composed with `simd_hashChunks_eq` — the container half has
+no content.)  SIMD backend on containers of one kind = software backend on containers of another kind holding the same
+bytes -/
 example {α β : Type} (viewA : α → Bytes) (viewB : β → Bytes)
     (outLen : Nat) (key salt personal : Option Bytes)
     (xs : List α) (ys : List β) (h : xs.map viewA = ys.map viewB) :
@@ -356,13 +389,253 @@ example {α β : Type} (viewA : α → Bytes) (viewB : β → Bytes)
       hashChunksC Model.Blake2b.compress outLen key salt personal (ys.map viewB) := by
   rw [h, simd_hashChunks_eq]
 
-/-! ## the premise of the buffering theorems, regenerated from the source on every run
+/-! ## containers: where they run different code, and that the bytes come out the same
+
+Re-exports of `Proofs/ContainerIndependence.lean`.  The containers of the crate differ in exactly these operations:
+`ResizableBytes::resize` (`Vec::resize` for `HeapBytes` / `Unlocked<HeapBytes>`; allocate-lock-copy-swap for
+`Locked<HeapBytes>`), `Clone` (`Vec::clone`; `new_locked` + `resize` + `copy_from_slice` for `Locked` / `LockedRO`),
+the fixed-length constructors (`TryFrom<&[u8]>` for `StackByteArray<N>` / `[u8; N]` / `HeapByteArray<N>`,
+`HeapByteArray::<N>::from_slice_into_[readonly_]locked`) and `ByteArray<N>::as_array` (identity for the typed
+containers; `assert!(len ≥ N)` + prefix view for `Vec<u8>` / `&[u8]` / `[u8]`).  `Inv c s` is the state invariant of
+C14 (holds in every reachable state: `C14.inv_reachable`). -/
+
+section Containers
+open DryocVerif.Model.Protected DryocVerif.Proofs.Protected
+open DryocVerif.Proofs.ContainerIndependence (vecResizeSpec FixedKind fixedCtor lockGranted fromSliceLocked)
+
+/-- **`Locked<HeapBytes>::resize` = `Vec::resize`**: the data of a locked region after `resize(n, b)` (new vector,
+resize, `mlock`, copy `min n len` bytes, swap, drop the old region) is the data `Vec::resize(n, b)` leaves in the
+plain / `Unlocked` container — `v.data.take n ++ [b; n - v.len]` (= `vecResizeSpec`) — whenever the locked resize does
+not panic; every `n`, `b`, record, and pair of machines.  Hypotheses `hl`, `hb`: the vector is well formed
+(`len ≤ cap = buf.length`; part of `Inv` for every live slot). -/
+theorem locked_resize_eq_vec_resize (c : Cfg) (m m' : Mach) (v nv : PVec) (rc : LM × PM) (n : Nat) (b : UInt8)
+    (hl : v.len ≤ v.cap) (hb : v.buf.length = v.cap) (h : (lockedResize c m v rc n b).2 = some nv) :
+    nv.len = (vecResize c m' v n b).2.len ∧ nv.data = (vecResize c m' v n b).2.data ∧
+    nv.data = vecResizeSpec v.data n b :=
+  Proofs.ContainerIndependence.locked_resize_eq_vec_resize c m m' v nv rc n b hl hb h
+
+/-- fill byte 0, in the form `v.data.take n ++ zeros (n - v.len)` -/
+theorem locked_resize_eq_vec_resize_zero (c : Cfg) (m : Mach) (v nv : PVec) (rc : LM × PM) (n : Nat)
+    (hl : v.len ≤ v.cap) (hb : v.buf.length = v.cap) (h : (lockedResize c m v rc n).2 = some nv) :
+    nv.data = (vecResize c m v n).2.data ∧ nv.data = v.data.take n ++ zeros (n - v.len) :=
+  Proofs.ContainerIndependence.locked_resize_eq_vec_resize_zero c m v nv rc n hl hb h
+
+/-- the plain `HeapBytes::resize` and `Unlocked<HeapBytes>::resize` against the same specification -/
+theorem vec_resize_eq_spec (c : Cfg) (m : Mach) (v : PVec) (n : Nat) (b : UInt8)
+    (hl : v.len ≤ v.cap) (hb : v.buf.length = v.cap) :
+    (vecResize c m v n b).2.len = n ∧ (vecResize c m v n b).2.data = vecResizeSpec v.data n b :=
+  Proofs.ContainerIndependence.vec_resize_eq_spec c m v n b hl hb
+
+/-- non-vacuity witness (hypotheses of `locked_resize_eq_vec_resize`, evaluated): a 4-byte vector `a5 a5 a5 a5` in
+an 8-byte allocation is well formed, its locked resize to 6 with fill `ee` succeeds, and both implementations give
+`a5 a5 a5 a5 ee ee`; shrinking to 2 gives `a5 a5` -/
+example :
+    let c : Cfg := {}
+    let m := Mach.init fun _ => true
+    let v : PVec := ⟨1, 8, 4, [0xa5, 0xa5, 0xa5, 0xa5, 1, 2, 3, 4]⟩
+    v.len ≤ v.cap ∧ v.buf.length = v.cap ∧
+    ((lockedResize c m v (.locked, .rw) 6 0xee).2.map PVec.data) = some [0xa5, 0xa5, 0xa5, 0xa5, 0xee, 0xee] ∧
+    (vecResize c m v 6 0xee).2.data = [0xa5, 0xa5, 0xa5, 0xa5, 0xee, 0xee] ∧
+    ((lockedResize c m v (.locked, .rw) 2).2.map PVec.data) = some [0xa5, 0xa5] ∧
+    (vecResize c m v 2).2.data = [0xa5, 0xa5] := by
+  decide
+
+/-- **the `resize` token, every resizable type state** (`HeapBytes`, `Unlocked<HeapBytes>`, `Locked<HeapBytes>`): when
+it answers `ok` the slot keeps its type state and holds `vecResizeSpec` of its old bytes (`C14.resize_keeps_prefix_fill`
+restated against the `Vec` specification on BYTES) -/
+theorem resize_token_eq_spec (c : Cfg) (s : State) (h : Inv c s) (i : Nat) (sl : Slot)
+    (hi : s.slots[i]? = some sl) (hg : sl.gone = false) (n : Nat) (b : UInt8)
+    (hok : (step c s ⟨.resize n b, i⟩).1 = .ok) :
+    ∃ nsl : Slot, (step c s ⟨.resize n b, i⟩).2.slots = s.slots.set i nsl ∧ nsl.gone = false ∧
+      nsl.o.st = sl.o.st ∧ nsl.o.v.len = n ∧ nsl.o.v.data = vecResizeSpec sl.o.v.data n b :=
+  Proofs.ContainerIndependence.resize_token_eq_spec c s h i sl hi hg n b hok
+
+/-- **`resize` is container independent**: two live slots — in two histories, under two configurations, in ANY two
+type states — that hold the same bytes hold the same bytes after `resize(n, b)` -/
+theorem resize_container_independent (c c' : Cfg) (s s' : State) (h : Inv c s) (h' : Inv c' s')
+    (i i' : Nat) (sl sl' : Slot) (hi : s.slots[i]? = some sl) (hi' : s'.slots[i']? = some sl')
+    (hg : sl.gone = false) (hg' : sl'.gone = false) (hd : sl.o.v.data = sl'.o.v.data) (n : Nat) (b : UInt8)
+    (hok : (step c s ⟨.resize n b, i⟩).1 = .ok) (hok' : (step c' s' ⟨.resize n b, i'⟩).1 = .ok) :
+    ∃ nsl nsl' : Slot, (step c s ⟨.resize n b, i⟩).2.slots[i]? = some nsl ∧
+      (step c' s' ⟨.resize n b, i'⟩).2.slots[i']? = some nsl' ∧ nsl.o.v.data = nsl'.o.v.data :=
+  Proofs.ContainerIndependence.resize_container_independent c c' s s' h h' i i' sl sl' hi hi' hg hg' hd n b hok hok'
+
+/-- **`Clone` in every type state that has one = `Vec::clone`**: when the `clone` token answers `ok` — source plain,
+`Unlocked`, `UnlockedRO` (`Vec::clone`) or `Locked` / `LockedRO` (`new_locked`, `resize`, `copy_from_slice`) — the new
+region is in the source's type state and holds exactly the source's bytes, which is what `Vec::clone` of the source's
+vector holds -/
+theorem clone_eq_vec_clone (c : Cfg) (s : State) (h : Inv c s) (i : Nat) (sl : Slot)
+    (hi : s.slots[i]? = some sl) (hg : sl.gone = false) (hok : (step c s ⟨.clone, i⟩).1 = .ok) :
+    ∃ nsl : Slot, (step c s ⟨.clone, i⟩).2.slots = s.slots ++ [nsl] ∧ nsl.gone = false ∧
+      nsl.o.st = sl.o.st ∧ nsl.o.v.len = sl.o.v.len ∧ nsl.o.v.data = sl.o.v.data ∧
+      nsl.o.v.data = (vecClone c s.m sl.o.v).2.data :=
+  Proofs.ContainerIndependence.clone_eq_vec_clone c s h i sl hi hg hok
+
+/-- two live slots in ANY two type states holding the same bytes give clones holding the same bytes -/
+theorem clone_container_independent (c c' : Cfg) (s s' : State) (h : Inv c s) (h' : Inv c' s')
+    (i i' : Nat) (sl sl' : Slot) (hi : s.slots[i]? = some sl) (hi' : s'.slots[i']? = some sl')
+    (hg : sl.gone = false) (hg' : sl'.gone = false) (hd : sl.o.v.data = sl'.o.v.data)
+    (hok : (step c s ⟨.clone, i⟩).1 = .ok) (hok' : (step c' s' ⟨.clone, i'⟩).1 = .ok) :
+    ∃ nsl nsl' : Slot, (step c s ⟨.clone, i⟩).2.slots = s.slots ++ [nsl] ∧
+      (step c' s' ⟨.clone, i'⟩).2.slots = s'.slots ++ [nsl'] ∧ nsl.o.v.data = nsl'.o.v.data :=
+  Proofs.ContainerIndependence.clone_container_independent c c' s s' h h' i i' sl sl' hi hi' hg hg' hd hok hok'
+
+/-- non-vacuity witness (`clone_eq_vec_clone`, all five type states with a `Clone`, evaluated): one 4-byte region
+filled with `a5` is cloned as plain container, `Locked`, `LockedRO`, and — second history — `Unlocked`, `UnlockedRO`;
+every `clone` answers `ok`, the clone is in the source's state and all regions hold `a5 a5 a5 a5` -/
+example :
+    let c : Cfg := { n := 4 }
+    let r₁ := run c (State.init fun _ => true)
+      [⟨.new, 0⟩, ⟨.fill 0xa5, 0⟩, ⟨.clone, 0⟩, ⟨.lock, 0⟩, ⟨.clone, 0⟩, ⟨.ro, 0⟩, ⟨.clone, 0⟩]
+    let r₂ := run c (State.init fun _ => true)
+      [⟨.new, 0⟩, ⟨.fill 0xa5, 0⟩, ⟨.lock, 0⟩, ⟨.unlock, 0⟩, ⟨.clone, 0⟩, ⟨.ro, 0⟩, ⟨.clone, 0⟩]
+    r₁.map (·.1) = [.ok, .ok, .ok, .ok, .ok, .ok, .ok] ∧ r₂.map (·.1) = [.ok, .ok, .ok, .ok, .ok, .ok, .ok] ∧
+    (r₁.map fun x => x.2.slots.map fun sl => (stName sl.o.st, sl.o.v.data)).getLast? =
+      some [("LRO", [0xa5, 0xa5, 0xa5, 0xa5]), ("P", [0xa5, 0xa5, 0xa5, 0xa5]), ("LR", [0xa5, 0xa5, 0xa5, 0xa5]),
+            ("LRO", [0xa5, 0xa5, 0xa5, 0xa5])] ∧
+    (r₂.map fun x => x.2.slots.map fun sl => (stName sl.o.st, sl.o.v.data)).getLast? =
+      some [("URO", [0xa5, 0xa5, 0xa5, 0xa5]), ("UR", [0xa5, 0xa5, 0xa5, 0xa5]),
+            ("URO", [0xa5, 0xa5, 0xa5, 0xa5])] := by
+  decide
+
+/-- **shrink, then grow: the spare capacity does not leak back** — `resize(m, b₁)` then `resize(n, b₂)` with
+`m ≤ len`, `m ≤ n`, in EVERY resizable type state: the slot holds the first `m` old bytes followed by `n - m` bytes
+`b₂`, not the old bytes `m … len` the shrink left behind in the allocation -/
+theorem shrink_then_grow_fill (c : Cfg) (hP : 0 < c.P) (s : State) (h : Inv c s) (i : Nat) (sl : Slot)
+    (hi : s.slots[i]? = some sl) (hg : sl.gone = false) (m n : Nat) (b₁ b₂ : UInt8)
+    (hm : m ≤ sl.o.v.len) (hmn : m ≤ n)
+    (hok₁ : (step c s ⟨.resize m b₁, i⟩).1 = .ok)
+    (hok₂ : (step c (step c s ⟨.resize m b₁, i⟩).2 ⟨.resize n b₂, i⟩).1 = .ok) :
+    ∃ nsl : Slot, (step c (step c s ⟨.resize m b₁, i⟩).2 ⟨.resize n b₂, i⟩).2.slots = s.slots.set i nsl ∧
+      nsl.gone = false ∧ nsl.o.st = sl.o.st ∧ nsl.o.v.len = n ∧
+      nsl.o.v.data = sl.o.v.data.take m ++ List.replicate (n - m) b₂ :=
+  Proofs.ContainerIndependence.shrink_then_grow_fill c hP s h i sl hi hg m n b₁ b₂ hm hmn hok₁ hok₂
+
+/-- fill byte 0 (what the crate passes): `data.take m ++ zeros (n - m)` -/
+theorem shrink_then_grow_zero_pads (c : Cfg) (hP : 0 < c.P) (s : State) (h : Inv c s) (i : Nat) (sl : Slot)
+    (hi : s.slots[i]? = some sl) (hg : sl.gone = false) (m n : Nat) (hm : m ≤ sl.o.v.len) (hmn : m ≤ n)
+    (hok₁ : (step c s ⟨.resize m, i⟩).1 = .ok)
+    (hok₂ : (step c (step c s ⟨.resize m, i⟩).2 ⟨.resize n, i⟩).1 = .ok) :
+    ∃ nsl : Slot, (step c (step c s ⟨.resize m, i⟩).2 ⟨.resize n, i⟩).2.slots = s.slots.set i nsl ∧
+      nsl.gone = false ∧ nsl.o.st = sl.o.st ∧ nsl.o.v.len = n ∧
+      nsl.o.v.data = sl.o.v.data.take m ++ zeros (n - m) :=
+  Proofs.ContainerIndependence.shrink_then_grow_zero_pads c hP s h i sl hi hg m n hm hmn hok₁ hok₂
+
+/-- non-vacuity witness (`shrink_then_grow_zero_pads`, the three resizable type states, evaluated): 4 bytes `a5`,
+`resize:2`, `resize:4` (grows IN PLACE over the two stale `a5` bytes for the plain and the `Unlocked` container) —
+every token answers `ok` and the result is `a5 a5 00 00` in all three, not `a5 a5 a5 a5` -/
+example :
+    let c : Cfg := { n := 4 }
+    let tail : List Tok := [⟨.resize 2, 0⟩, ⟨.resize 4, 0⟩]
+    let plain := run c (State.init fun _ => true) ([⟨.new, 0⟩, ⟨.fill 0xa5, 0⟩] ++ tail)
+    let unl := run c (State.init fun _ => true) ([⟨.new, 0⟩, ⟨.fill 0xa5, 0⟩, ⟨.lock, 0⟩, ⟨.unlock, 0⟩] ++ tail)
+    let lck := run c (State.init fun _ => true) ([⟨.new, 0⟩, ⟨.fill 0xa5, 0⟩, ⟨.lock, 0⟩] ++ tail)
+    (plain ++ unl ++ lck).all (fun x => x.1 == .ok) = true ∧
+    [plain, unl, lck].map (fun r => (r.map fun x => x.2.slots.map fun sl => (stName sl.o.st, sl.o.v.data)).getLast?) =
+      [some [("P", [0xa5, 0xa5, 0, 0])], some [("UR", [0xa5, 0xa5, 0, 0])], some [("LR", [0xa5, 0xa5, 0, 0])]] := by
+  decide
+
+/-- **the fixed-length constructors accept exactly length `N`, for EVERY container kind** — `StackByteArray<N>`,
+`[u8; N]`, `HeapByteArray<N>` (`TryFrom<&[u8]>`), `Locked<HeapByteArray<N>>`, `LockedRO<HeapByteArray<N>>`
+(`from_slice_into_[readonly_]locked`); ONE statement quantified over the kind `k` (`fixedCtor k` = the bytes of the
+container built; `N = c.n`):
+* a slice of any other length is refused with `Err` — no kind truncates a longer slice or pads a shorter one;
+* whenever a container is built, the slice had exactly `N` bytes and the container holds exactly the slice;
+* a slice of exactly `N` bytes is accepted (locked kinds: provided the `mlock` request is granted — a refused lock is
+  the only other source of `Err`);
+* no kind panics.
+Hypothesis `hc`: the configuration is a fixed-length array one (`HeapByteArray<N>`; `HeapBytes` has no fixed length). -/
+theorem tryFromSlice_strict_all_containers (k : FixedKind) (c : Cfg) (hc : c.isArr = true) (s : State)
+    (src : Bytes) :
+    (src.length ≠ c.n → fixedCtor k c s src = .err) ∧
+    (∀ d, fixedCtor k c s src = .ok d → src.length = c.n ∧ d = src) ∧
+    (src.length = c.n → lockGranted k c s → fixedCtor k c s src = .ok src) ∧
+    (src.length = c.n → fixedCtor k c s src = .err → ¬ lockGranted k c s) ∧
+    fixedCtor k c s src ≠ .panic :=
+  Proofs.ContainerIndependence.tryFromSlice_strict_all_containers k c hc s src
+
+/-- all kinds agree with each other — same verdict, same bytes — whenever the lock requests are granted -/
+theorem fixedCtor_kind_independent (k k' : FixedKind) (c : Cfg) (hc : c.isArr = true) (s s' : State)
+    (src : Bytes) (hg : lockGranted k c s) (hg' : lockGranted k' c s') :
+    fixedCtor k c s src = fixedCtor k' c s' src :=
+  Proofs.ContainerIndependence.fixedCtor_kind_independent k k' c hc s s' src hg hg'
+
+/-- the locked constructors of `fixedCtor` are the model's own `doFromSlice` (tokens `fsl:n` / `fsro:n`, which C14 /
+C19 reason about) with an arbitrary slice in the place of `[0x5a; n]` -/
+theorem doFromSlice_eq_generic (c : Cfg) (s : State) (n : Nat) (ro : Bool) :
+    doFromSlice c s n ro = fromSliceLocked c s (List.replicate n 0x5a) ro :=
+  Proofs.ContainerIndependence.doFromSlice_eq_generic c s n ro
+
+/-- the heap constructor through the page-aligned vector (`Self::default()`, `copy_from_slice`) = the byte-list model
+`tryFromSlice` that the encoding models (C16) use for `StackByteArray<N>` and `HeapByteArray<N>` alike -/
+theorem heapTryFrom_eq_tryFromSlice (c : Cfg) (m : Mach) (src : Bytes) :
+    Proofs.ContainerIndependence.heapTryFrom c m src = Model.Encoding.tryFromSlice c.n src :=
+  Proofs.ContainerIndependence.heapTryFrom_eq_tryFromSlice c m src
+
+/-- non-vacuity witness (`tryFromSlice_strict_all_containers`, evaluated, `N = 4`): the configuration is an array
+one, the lock of the locked kinds is granted under the all-granting oracle, and EVERY kind answers `Err` on 3 and on
+5 bytes and builds exactly `[1, 2, 3, 4]` from 4 bytes; under an oracle that refuses, the locked kinds answer `Err`
+on 4 bytes as well (the other kinds do not) -/
+example :
+    let c : Cfg := { isArr := true, n := 4 }
+    let s := State.init fun _ => true
+    let s' := State.init fun _ => false
+    let kinds : List FixedKind := [.stack, .array, .heap, .locked, .lockedRO]
+    c.isArr = true ∧
+    (lockV c (newBytes c s.m).1 (newBytes c s.m).2 recNew).2 = true ∧
+    kinds.map (fun k => fixedCtor k c s [1, 2, 3]) = [.err, .err, .err, .err, .err] ∧
+    kinds.map (fun k => fixedCtor k c s [1, 2, 3, 4, 5]) = [.err, .err, .err, .err, .err] ∧
+    kinds.map (fun k => fixedCtor k c s [1, 2, 3, 4]) =
+      [.ok [1, 2, 3, 4], .ok [1, 2, 3, 4], .ok [1, 2, 3, 4], .ok [1, 2, 3, 4], .ok [1, 2, 3, 4]] ∧
+    kinds.map (fun k => fixedCtor k c s' [1, 2, 3, 4]) =
+      [.ok [1, 2, 3, 4], .ok [1, 2, 3, 4], .ok [1, 2, 3, 4], .err, .err] := by
+  decide
+
+/-- `lockGranted` holds for every kind in that state (hypothesis of the third clause and of
+`fixedCtor_kind_independent`) -/
+example (k : FixedKind) : lockGranted k { isArr := true, n := 4 } (State.init fun _ => true) :=
+  fun _ => by decide
+
+/-- **THE EXCEPTION — the one place where containers legitimately differ**: `Vec<u8>` / `&[u8]` / `[u8]` as
+`ByteArray<N>` (`Model.ArrayView.asArray`, types.rs:151 / 337 / 351) is `assert!(len ≥ N)` + a view of the first `N`
+bytes.  It PANICS on a short container (it never returns `Err`), is the identity on exactly `N` bytes — where it
+agrees with every fixed-length container —, and on a longer container silently yields the `N`-byte PREFIX, which is
+not the container's contents.  Every result obtained through such a container is therefore a function of its first
+`N` bytes only (C07 `…_view` theorems), unlike the typed containers, which refuse (`tryFromSlice_strict_all_containers`). -/
+theorem asArray_prefix_view (n : Nat) (x : Bytes) :
+    (x.length < n → Model.ArrayView.asArray n x = .panic) ∧
+    (n ≤ x.length → Model.ArrayView.asArray n x = .ok (x.take n)) ∧
+    (x.length = n → Model.ArrayView.asArray n x = .ok x) ∧
+    (n < x.length → ∃ a, Model.ArrayView.asArray n x = .ok a ∧ a ≠ x ∧ a.length = n) ∧
+    Model.ArrayView.asArray n x ≠ .err :=
+  Proofs.ContainerIndependence.asArray_prefix_view n x
+
+/-- exception and rule side by side: on a slice of the WRONG length every fixed-length constructor answers `Err`
+while the `Vec<u8>` view panics (short) or truncates (long); on the right length they all agree -/
+theorem asArray_vs_fixedCtor (k : FixedKind) (c : Cfg) (hc : c.isArr = true) (s : State) (x : Bytes) :
+    (x.length < c.n → Model.ArrayView.asArray c.n x = .panic ∧ fixedCtor k c s x = .err) ∧
+    (c.n < x.length → Model.ArrayView.asArray c.n x = .ok (x.take c.n) ∧ fixedCtor k c s x = .err) ∧
+    (x.length = c.n → lockGranted k c s → Model.ArrayView.asArray c.n x = fixedCtor k c s x) :=
+  Proofs.ContainerIndependence.asArray_vs_fixedCtor k c hc s x
+
+/-- witness (evaluated): short → panic, exact → identity, long → prefix -/
+example :
+    Model.ArrayView.asArray 2 [1] = .panic ∧ Model.ArrayView.asArray 2 [1, 2] = .ok [1, 2] ∧
+    Model.ArrayView.asArray 2 [1, 2, 3] = .ok [1, 2] := by
+  decide
+
+end Containers
+
+/-! ## the premise of the buffering theorems: a Python text comparison, guarded here
 
 `simd_hashChunks_eq`, `simd_update_eq`, … instantiate ONE buffering model (`hashChunksC`) at two compression functions; that the
 buffering text of `blake2b_simd.rs` (counter, init, init_param, init0, update, finalize, hash, longhash, last-block flags) IS the
-software backend's is what `tools/rs2lean.py` (kernel `SimdText`) re-establishes from `/repo` on every run, token for token up to the
-representation of the chaining value and wipe-only statements.  A change to one backend's buffering alone turns an entry to
-`false` and this theorem stops checking. -/
+software backend's is NOT proved in Lean: it is asserted by a text comparison done in Python on every run (`tools/rs2lean.py`,
+kernel `SimdText`: 11 functions + 5 items, token for token up to the representation of the chaining value and wipe-only
+statements; see DESIGN §12a), which writes one Boolean per function / item into `Gen/SimdText.lean`.  The Lean theorem below is
+a GUARD ON ITS OUTPUT: it checks that every emitted Boolean is `true` and that the list of compared names is the expected one.
+A change to one backend's buffering alone turns an entry to `false` and this theorem stops checking; the correctness of the
+comparison itself rests on the Python. -/
 
 theorem translated_simd_buffering_text_same_as_software :
     ∀ p ∈ Gen.SimdText.same_as_software, p.2 = true :=
@@ -412,3 +685,23 @@ open DryocVerif.Properties.C18 in
 #print axioms translated_simd_buffering_text_same_as_software
 open DryocVerif.Properties.C18 in
 #print axioms translated_simd_buffering_text_covers
+open DryocVerif.Properties.C18 in
+#print axioms locked_resize_eq_vec_resize
+open DryocVerif.Properties.C18 in
+#print axioms vec_resize_eq_spec
+open DryocVerif.Properties.C18 in
+#print axioms resize_container_independent
+open DryocVerif.Properties.C18 in
+#print axioms clone_eq_vec_clone
+open DryocVerif.Properties.C18 in
+#print axioms shrink_then_grow_zero_pads
+open DryocVerif.Properties.C18 in
+#print axioms shrink_then_grow_fill
+open DryocVerif.Properties.C18 in
+#print axioms tryFromSlice_strict_all_containers
+open DryocVerif.Properties.C18 in
+#print axioms fixedCtor_kind_independent
+open DryocVerif.Properties.C18 in
+#print axioms asArray_prefix_view
+open DryocVerif.Properties.C18 in
+#print axioms asArray_vs_fixedCtor
